@@ -2,6 +2,7 @@ import ScyllaVerif.Model.Util
 import ScyllaVerif.Model.Carrier
 import ScyllaVerif.Model.Row
 import ScyllaVerif.Model.C17Bind
+import ScyllaVerif.Model.C17Meta
 /-! Line-protocol driver for C17.
 
 Segments of a case are separated by ` | `, operations of a `row` case by ` ; `.  Prefix notation, explicit counts.
@@ -29,7 +30,7 @@ Cases (`<label>` names the concrete Rust type on the harness side and is ignored
        bytes end inside row r)
        → `ctor:TypeCheck` | stop: `rows=<delivered> fin=end|TypeCheck` | all (polls through error items): `seq=r2e3x1r1 fin=end`
          (r rows, e type-check errors, x row-deserialization errors)
-  `bindrow seq|tup1|tup2|tup3|unit|u80|map|struct2|struct3 | name T ; name T … | [name] <ref> V ; …`  SerializeRow through from_serializable
+  `bindrow seq|tup1|tup2|tup3|unit|u80|map|struct2|struct3|structcba | name T ; name T … | [name] <ref> V ; …`  SerializeRow through from_serializable
        → `ok count=… cells=… <digest>` | `err WrongColumnCount` | `err ValueMissingForColumn n` | `err NoColumnWithName n`
          | `err col n <class> <path>` | `err TooManyValues`
   `batch <vec|tuple|iter> | cols || cols … | vals || vals …`  a BATCH bound through RawBatchValuesAdapter (one context per
@@ -477,10 +478,11 @@ def runBindRow (case : String) : String :=
     match words hd, (splitSemi cseg).mapM parseBindCol with
     | ["bindrow", kind], some cols =>
       let rv : Option RowVal :=
-        if kind == "map" || kind == "struct2" || kind == "struct3" then
+        if kind == "map" || kind == "struct2" || kind == "struct3" || kind == "structcba" then
+          -- derived structs: the fields in DECLARATION order (the order of the case line)
           ((splitSemi vseg).mapM fun s => match words s with
             | name :: _ref :: rest => (valOf (" ".intercalate rest)).map fun v => (name, v)
-            | _ => none).map RowVal.byName
+            | _ => none).map (if kind == "map" then RowVal.byName else RowVal.derived)
         else
           ((splitSemi vseg).mapM fun s => match words s with
             | _ref :: rest => valOf (" ".intercalate rest)
@@ -605,16 +607,22 @@ def parsePage (seg : String) : Option (Nat × Option (List (String × CqlTy)) ×
     | _, _ => none
   | _ => none
 
-/-- The columns the rows of page `k` are laid out in (see `effective_cols` in harness/src/c17/pager.rs). -/
-def effectiveCols (prepared : List (String × CqlTy)) (ext : Bool)
-    (pages : List (Nat × Option (List (String × CqlTy)) × Bool × Nat)) : List PageM :=
+/-- The columns the rows of page `k` are type-checked and decoded against: `Model/C17Meta.lean`'s `pagesInForce`
+(the statement's current metadata → `cached_metadata` → `deserialize_metadata` → `handle_result_metadata_new_id`, per
+page).  The scripted server of the harness lays the rows out per ITS OWN `effective_cols` (harness/src/c17/pager.rs);
+the prepared statement's metadata id is 0 with the extension (none without), page k announces id k + 1. -/
+def effectiveCols (prepared : List (String × CqlTy)) (ext skip : Bool)
+    (pages : List (Nat × Option (List (String × CqlTy)) × Bool × Nat)) : Option (List PageM) :=
   let raws (rows cut : Nat) : List Bool := List.replicate (min cut rows) true ++ List.replicate (rows - cut) false
-  let step (acc : List PageM × List (String × CqlTy)) (p : Nat × Option (List (String × CqlTy)) × Bool × Nat) :=
+  let resps : List C17Meta.PageResp := (pages.zipIdx).map fun (p, k) =>
     match p with
+    | (_, some cs, newId, _) => ⟨if newId then 0x0009 else 0x0001, ⟨k + 1, cs⟩⟩
+    | (_, none, _, _) => ⟨0x0005, ⟨k + 1, []⟩⟩
+  match C17Meta.pagesInForce skip ext ⟨if ext then some 0 else none, prepared⟩ resps with
+  | none => none
+  | some colss =>
     -- a row without columns has no bytes: such a page cannot be truncated
-    | (rows, some cs, newId, cut) => (acc.1 ++ [⟨cs, raws rows (if cs.isEmpty then rows else cut)⟩], if ext && newId then cs else acc.2)
-    | (rows, none, _, cut) => (acc.1 ++ [⟨acc.2, raws rows (if acc.2.isEmpty then rows else cut)⟩], acc.2)
-  (pages.foldl step ([], prepared)).1
+    some ((pages.zip colss).map fun ((rows, _, _, cut), cs) => ⟨cs, raws rows (if cs.isEmpty then rows else cut)⟩)
 
 /-- `T::type_check` of the target row type against a page's columns.  The derived struct `PkV { pk: i32, v: i64 }`
 matches BY NAME (the derive macros are C16's subject; here: exactly its two fields, in any order). -/
@@ -634,12 +642,15 @@ def runPager (case : String) : String :=
   match segs case with
   | hd :: prep :: pageSegs =>
     match words hd, parseCols (words prep), pageSegs.mapM parsePage with
-    | ["pager", target, ext, _skip, consumer], some prepared, some pages =>
+    | ["pager", target, ext, skip, consumer], some prepared, some pages =>
       -- `S/<target>`: the same stream obtained through Session::execute_iter
       match targetCheck (if target.startsWith "S/" then (target.drop 2).toString else target) with
       | none => "bad-case"
       | some check =>
-        match typedStream check (effectiveCols prepared (ext == "1") pages) with
+        match effectiveCols prepared (ext == "1") (skip == "1") pages with
+        | none => "bad-case"
+        | some pageMs =>
+        match typedStream check pageMs with
         | none => "ctor:TypeCheck"
         | some outs =>
           if consumer == "stop" then
@@ -662,6 +673,48 @@ def runPager (case : String) : String :=
             s!"seq={if rle.isEmpty then "-" else rle} fin=end"
           else "bad-case"
     | _, _, _ => "bad-case"
+  | _ => "bad-case"
+
+/-! ### `rowsmeta`: one RESULT::Rows body parsed WITH a cached metadata — which metadata is in force -/
+
+def nativeName : CqlTy → String
+  | .native .int => "int" | .native .bigint => "bigint" | .native .double => "double" | .native .text => "text"
+  | .native .boolean => "boolean" | _ => "?"
+
+def colsStr (cs : List (String × CqlTy)) : String :=
+  toString cs.length ++ String.join (cs.map fun (n, t) => " " ++ n ++ " " ++ nativeName t)
+
+/-- `rowsmeta <target> <ext> <flags> | none or <id|-> cols | <new id> cols | <rows>` -/
+def runRowsMeta (case : String) : String :=
+  match segs case with
+  | [hd, cseg, sseg, rseg] =>
+    let cached : Option (Option C17Meta.Meta) :=
+      match words cseg with
+      | ["none"] => some none
+      | idw :: rest =>
+        match parseCols rest with
+        | some cs => if idw == "-" then some (some ⟨none, cs⟩) else idw.toNat?.map fun i => some ⟨some i, cs⟩
+        | none => none
+      | [] => none
+    let sent : Option C17Meta.Sent :=
+      match words sseg with
+      | idw :: rest => match idw.toNat?, parseCols rest with
+        | some i, some cs => some ⟨i, cs⟩
+        | _, _ => none
+      | [] => none
+    match words hd, cached, sent, rseg.toNat? with
+    | ["rowsmeta", target, ext, flags], some cached, some sent, some rows =>
+      match targetCheck target, flags.toNat? with
+      | some check, some flags =>
+        if !(ext == "0" || ext == "1") then "bad-case" else
+        match C17Meta.parsePresence (ext == "1") flags with
+        | none => "err presence"
+        | some p =>
+          let m := (C17Meta.deserializeMetadata cached p sent).inner
+          let idStr := match m.id with | some i => toString i | none => "-"
+          s!"cols={colsStr m.cols} id={idStr} iter={if check m.cols then s!"ok rows={rows}" else "typecheck"}"
+      | _, _ => "bad-case"
+    | _, _, _, _ => "bad-case"
   | _ => "bad-case"
 
 def run (case impl : String) : String :=
@@ -709,6 +762,7 @@ def run (case impl : String) : String :=
       | _, _ => "bad-case"
     | _ => "bad-case"
   | some "pager" => runPager case
+  | some "rowsmeta" => runRowsMeta case
   | some "deser" => runDeser case impl.trimAscii.toString
   | some "deserrow" => runDeserRow case impl.trimAscii.toString
   | some "bindrow" => runBindRow case
